@@ -28,55 +28,78 @@ THOROUGH = QUICK + [
     ("R0,R1,R2,D2,D1,D0/S", "-"),
 ]
 
+def _wf(prog):
+    """each callback id constructed at most once and destroyed at most once (threads + bodies)"""
+    text = prog[0].replace("/", ",")
+    if prog[1] != "-":
+        text += "," + ",".join(b.split("=", 1)[1] for b in prog[1].split("/"))
+    ins = [w for w in text.split(",") if w and w != "-"]
+    for k in "RD":
+        ids = [w[1:] for w in ins if w[0] == k]
+        if len(ids) != len(set(ids)):
+            return False
+    return True
+
+def _parse(events):
+    parsed = []
+    for e in events:
+        m = re.match(r"t(\d+) (\S+) ?(.*)$", e)
+        parsed.append((int(m.group(1)), m.group(2), m.group(3)))
+    nxt = [None] * len(parsed); last = {}
+    for i in range(len(parsed) - 1, -1, -1):
+        t = parsed[i][0]
+        nxt[i] = last.get(t); last[t] = i
+    return parsed, nxt
+
+def _lock_word(parsed, nxt, i, wordname):
+    """lock-granularity rewriting of one access of the lock word -> projected event or None"""
+    t, name, rest = parsed[i]
+    m = re.match(r"([LSC])\.(\S+) (.*)$", rest)
+    op, order, vals = m.group(1), m.group(2), m.group(3)
+    if op == "S":
+        return "state REL.%s %s" % (order, vals)
+    if op == "C" and vals.endswith(" ok"):
+        a, b = vals[:-3].split("->")
+        if int(b) & 2 and not int(a) & 2:
+            return "state ACQ.%s %s->%s" % (order, a, b)
+        return "state UNCLASSIFIED " + rest
+    # an observation: a load, or the value a failed CAS read.  It is one the code acted on unless
+    # the same thread's next event is again an access of the lock word (it fed the CAS or a spin).
+    v = vals.split("->")[0].split(" ")[0]
+    j = nxt[i]
+    feeds = j is not None and parsed[j][1] == wordname and order != "acq"
+    return None if feeds else "state OBS.%s %s" % (order, v)
+
 class StopSource(Unit):
     name = "stop_source/StopSource"; driver = "k1_stopsource"; cfg = "shim17"; handler = "stopsource"
     maxruns = {"quick": 3000, "thorough": 60000}
     nrandom = {"quick": 200, "thorough": 3000}
+    drop_rs = False
     def programs(self, tier):
-        return QUICK if tier == "quick" else THOROUGH
+        progs = QUICK if tier == "quick" else THOROUGH
+        assert all(_wf(p) for p in progs)
+        return progs
     def model_args(self, prog):
         return "%s %s" % (prog[0], prog[1])
     def project(self, prog, events):
-        parsed = []
-        for e in events:
-            m = re.match(r"t(\d+) (\S+) ?(.*)$", e)
-            parsed.append((int(m.group(1)), m.group(2), m.group(3)))
-        # index of the next event of the same thread
-        nxt = [None] * len(parsed); last = {}
-        for i in range(len(parsed) - 1, -1, -1):
-            t = parsed[i][0]
-            nxt[i] = last.get(t); last[t] = i
+        parsed, nxt = _parse(events)
         out = []
         for i, (t, name, rest) in enumerate(parsed):
             if name == "src.state":
-                m = re.match(r"([LSC])\.(\S+) (.*)$", rest)
-                op, order, vals = m.group(1), m.group(2), m.group(3)
-                if op == "S":
-                    out.append((t, "state REL.%s %s" % (order, vals)))
-                elif op == "C" and vals.endswith(" ok"):
-                    a, b = vals[:-3].split("->")
-                    if int(b) & 2 and not int(a) & 2:
-                        out.append((t, "state ACQ.%s %s->%s" % (order, a, b)))
-                    else:
-                        out.append((t, "state UNCLASSIFIED " + rest))
-                else:
-                    # an observation: a load, or the value a failed CAS read.  It is one the code acted
-                    # on unless the same thread's next event is again an access of the lock word
-                    # (the load fed the CAS or a spin).
-                    v = vals.split("->")[0].split(" ")[0]
-                    j = nxt[i]
-                    feeds = j is not None and parsed[j][1] == "src.state" and order != "acq"
-                    if not feeds:
-                        out.append((t, "state OBS.%s %s" % (order, v)))
+                e = _lock_word(parsed, nxt, i, "src.state")
+                if e:
+                    out.append((t, e))
             elif name == "mark":
                 v = int(rest.split(" ")[-1])
+                if v == 19:
+                    continue
                 kind = {1: "dereg", 2: "end", 3: "waitreg"}[v // 10]
                 out.append((t, "%s %d" % (kind, v % 10)))
             elif re.fullmatch(r"cb\d\.done", name):
                 if rest == "L.acq 0":
                     continue
                 out.append((t, name + " " + rest))
-            elif name in ("!exec", "!dret", "!rs"):
+            elif name in ("!exec", "!dret") or (name == "!rs" and not self.drop_rs):
                 out.append((t, name[1:] + " " + rest))
         return out
     def post_check(self, prog, summary, proj):
@@ -87,4 +110,112 @@ class StopSource(Unit):
             return "model threads not all finished at the end of a complete implementation run: " + summary
         if m.group(3) != "0":
             return "model lock still held at the end: " + summary
+        return None
+
+# ---- two sources: fused_stop_source<inplace_stop_token> and inplace_stop_token_adapter<other token>
+TWO_QUICK = [
+    ("A,R0,D0,U/s", "-"),                # attach, client callback on the inner source, detach, racing upstream stop
+    ("A,U/s/S", "-"),                    # upstream stop racing a direct request_stop on the inner source
+    ("R0,A,D0/s,Q", "0=Q"),              # attach racing the upstream stop (inline forward inside attach)
+    ("A,R0/W0,s/W0,D0", "0=Q"),          # destructor on a third thread racing the forwarded notification
+    ("A,R0,U/W0,s,q", "0=D0"),           # inner callback destroys itself while being notified via the forwarder
+]
+TWO_THOROUGH = TWO_QUICK + [
+    ("A,R0,R1,D1,U/s/S,Q", "0=Q/1=Q"),
+    ("s,A,R0,D0,U/S", "0=S"),
+    ("A,R0,D0/s/U", "0=Q"),
+]
+
+class TwoSourceInner(StopSource):
+    """events of the inner source; forwarded request_stop calls resolved after the fact"""
+    handler = "stopsource_in"; drop_rs = True
+    maxruns = {"quick": 1500, "thorough": 30000}
+    nrandom = {"quick": 100, "thorough": 2000}
+    def __init__(self, mode):
+        self.mode = mode
+        self.name = "stop_source/%s-inner" % mode
+    def programs(self, tier):
+        progs = TWO_QUICK if tier == "quick" else TWO_THOROUGH
+        assert all(_wf(p) for p in progs)
+        return [(a, b, self.mode) for a, b in progs]
+    def model_args(self, prog):
+        ths = []
+        for th in prog[0].split("/"):
+            ws = []
+            for w in th.split(","):
+                if w in ("s", "A"):
+                    ws.append("F")
+                elif w in ("q", "U", "-", ""):
+                    continue
+                else:
+                    ws.append(w)
+            ths.append(",".join(ws) if ws else "-")
+        return "%s %s" % ("/".join(ths), prog[1])
+    def project(self, prog, events):
+        out = StopSource.project(self, prog, events)
+        # which placeholders ran: any inner access by the thread between its "ub" and "us"/"att"
+        parsed, _ = _parse(events)
+        nthreads = len(prog[0].split("/"))
+        ran = {t: [] for t in range(nthreads)}
+        open_ = {}
+        for t, name, rest in parsed:
+            if name == "!ub":
+                open_[t] = False
+            elif name in ("!us", "!att"):
+                ran[t].append(open_.pop(t))
+            elif name == "src.state" and t in open_:
+                open_[t] = True
+        mask = 0; k = 0
+        for t, th in enumerate(prog[0].split("/")):
+            n_ph = sum(1 for w in th.split(",") if w in ("s", "A"))
+            flags = ran[t] + [False] * (n_ph - len(ran[t]))
+            for f in flags[:n_ph]:
+                if f:
+                    mask |= 1 << k
+                k += 1
+        return [(1000 + mask, "cfg")] + out
+
+class TwoSourceUp(Unit):
+    """events of the upstream source: the forwarding callback is callback 9 with an empty body"""
+    driver = "k1_stopsource"; cfg = "shim17"; handler = "stopsource_up"
+    maxruns = {"quick": 1500, "thorough": 30000}
+    nrandom = {"quick": 100, "thorough": 2000}
+    def __init__(self, mode):
+        self.mode = mode
+        self.name = "stop_source/%s-upstream" % mode
+    def programs(self, tier):
+        progs = TWO_QUICK if tier == "quick" else TWO_THOROUGH
+        return [(a, b, self.mode) for a, b in progs]
+    def model_args(self, prog):
+        mp = {"s": "S", "q": "Q", "A": "R9", "U": "D9"}
+        ths = []
+        for th in prog[0].split("/"):
+            ws = [mp[w] for w in th.split(",") if w in mp]
+            ths.append(",".join(ws) if ws else "-")
+        return "%s -" % "/".join(ths)
+    def project(self, prog, events):
+        parsed, nxt = _parse(events)
+        out = []
+        for i, (t, name, rest) in enumerate(parsed):
+            if name == "up.state":
+                e = _lock_word(parsed, nxt, i, "up.state")
+                if e:
+                    out.append((t, e))
+            elif name == "mark" and rest.endswith(" 19"):
+                out.append((t, "dereg 9"))
+            elif name == "fwd.done":
+                if rest == "L.acq 0":
+                    continue
+                out.append((t, "cb9.done " + rest))
+            elif name == "!us":
+                out.append((t, "rs " + rest))
+            elif name == "!uret":
+                out.append((t, "dret 9"))
+        return out
+    def post_check(self, prog, summary, proj):
+        m = re.search(r"fin=(\d+) stop=(\d) locked=(\d)", summary)
+        if not m:
+            return "bad model summary: " + summary
+        if "0" in m.group(1):
+            return "model threads not all finished at the end of a complete implementation run: " + summary
         return None
